@@ -49,7 +49,9 @@ fn area_signature(o: &OShape, got: f64) -> String {
         OShape::Discs(d) => {
             // a common point of three discs also covers "two contained discs that overlap"
             if geom::triple_common_point(d) {
-                if rel_diff(got, pairwise_area(d)) <= 1e-9 {
+                // (1e-6: at a tangency the lens formula's square root and arc cosine turn one
+                // ulp of the distance into 1e-8..1e-7 of the area)
+                if rel_diff(got, pairwise_area(d)) <= 1e-6 {
                     "MolecularShape2::area:three-discs-share-a-point".into()
                 } else {
                     "MolecularShape2::area:three-discs-share-a-point:and-not-the-pairwise-sum-either".into()
@@ -66,6 +68,25 @@ fn area_signature(o: &OShape, got: f64) -> String {
 #[derive(Clone, Debug, Serialize, Deserialize)]
 pub struct AreaCase {
     pub shape: ShapeSpec,
+}
+
+/// Relative accuracy that can be asked of a disc-union area: 1e-9, but 1e-6 when two discs
+/// touch (from outside or inside) to within 1e-6 of their size - there any formula in terms of
+/// chord distances loses half its digits to a square root.
+fn area_tolerance(o: &OShape) -> f64 {
+    if let OShape::Discs(d) = o {
+        for i in 0..d.len() {
+            for j in i + 1..d.len() {
+                let dist = geom::dist(d[i].0, d[j].0);
+                let (r1, r2) = (d[i].1, d[j].1);
+                let scale = 1e-6 * (r1 + r2);
+                if (dist - (r1 + r2)).abs() <= scale || (dist - (r1 - r2).abs()).abs() <= scale {
+                    return 1e-6;
+                }
+            }
+        }
+    }
+    REL
 }
 
 fn check_area_generic<S: HardGeom>(s: &S, c: &AreaCase, st: &mut Stats) {
@@ -89,12 +110,12 @@ fn check_area_generic<S: HardGeom>(s: &S, c: &AreaCase, st: &mut Stats) {
             st.count("trimers_with_pairwise_lenses_only");
         }
     }
-    if !(rel_diff(got, want) <= REL) {
+    if !(rel_diff(got, want) <= area_tolerance(&o)) {
         st.violation(Violation {
             kind: "c02.area".into(),
             signature: area_signature(&o, got),
             case: serde_json::to_value(c).unwrap(),
-            detail: json!({"library_area": got, "oracle_area": want, "geometry": format!("{:?}", o)}),
+            detail: json!({"library_area": got, "oracle_area": want, "pairwise_sum(the open finding's value)": match &o { OShape::Discs(d) => Some(pairwise_area(d)), _ => None }, "geometry": format!("{:?}", o)}),
         });
     } else {
         st.sample(|| json!({"case": c, "library_area": got, "oracle_area": want}));
@@ -118,6 +139,15 @@ pub fn gen_area_case<R: Rng>(rng: &mut R) -> AreaCase {
             ShapeSpec::Radial { radii: (0..n).map(|_| rng.gen_range(0.2, 2.)).collect() }
         }
         3 => ShapeSpec::Circle,
+        4 if rng.gen_bool(0.5) => {
+            // tangencies as a user types them: radius and distance decimals that add up to the
+            // central disc's radius (inside) or differ by it (outside), where the sum of the two
+            // doubles falls an ulp either side of 1
+            let k = rng.gen_range(1, 1000);
+            let radius = k as f64 / 1000.;
+            let distance = if rng.gen_bool(0.7) { (1000 - k) as f64 / 1000. } else { (1000 + k) as f64 / 1000. };
+            ShapeSpec::Trimer { radius, angle: [120., 90., 60., 180., 45., 30.][rng.gen_range(0, 6)], distance }
+        }
         4 => {
             // exact ties: coincident outer discs (angle 0), discs touching from inside or
             // outside, equal radii, all three on one point
@@ -223,10 +253,11 @@ pub fn judge_score<S: HardGeom>(state: &PackedState<S>, c: &StateCase, st: &mut 
     }
     let bucket = if want > 0.8 { ">0.8" } else if want > 0.5 { "0.5-0.8" } else { "<0.5" };
     st.count(&format!("valid_states_by_true_packing_fraction[{}]", bucket));
-    if !(rel_diff(score, want) <= REL) || !(score <= 1. + REL) {
+    let rel = area_tolerance(&view.shape);
+    if !(rel_diff(score, want) <= rel) || !(score <= 1. + rel) {
         // attribute: shape area, cell area, copy count?
         let lib_area = state.shape.area();
-        let sig = if !(rel_diff(lib_area, view.shape.area()) <= REL) {
+        let sig = if !(rel_diff(lib_area, view.shape.area()) <= rel) {
             area_signature(&view.shape, lib_area)
         } else if !(rel_diff(state.cell.area(), view.lattice.area()) <= REL) {
             "Cell2::area:wrong".to_string()
@@ -383,7 +414,8 @@ pub fn check_multi_site(seed: u64, st: &mut Stats) {
     st.nontrivial(hash64(&[223, seed]));
     st.count("multi_site_states");
     let want = view.placements.len() as f64 * view.shape.area() / view.lattice.area();
-    if !(rel_diff(score, want) <= REL) || !(score <= 1. + REL) {
+    let rel = area_tolerance(&view.shape);
+    if !(rel_diff(score, want) <= rel) || !(score <= 1. + rel) {
         st.violation(Violation {
             kind: "c02.multisite".into(),
             signature: if state.total_shapes() != view.placements.len() { "PackedState::total_shapes:wrong".to_string() } else { "PackedState::score:not-the-packing-fraction".to_string() },
